@@ -18,6 +18,7 @@
 // Monitors (independent of the model): accept_iff, shadow, empty_never,
 // exact_permissions (table written by hand from the property text),
 // refused_outside (group.AddClient with a recording client), hash_roundtrip,
+// hash_roundtrip_long (lengths 0..200 with every hashing algorithm of the tool),
 // hash_no_other (tested fact; the collisions inherent in bcrypt and in
 // HMAC are the known findings F22/F23, reported under the tokens
 // bcrypt-truncation and pbkdf2-hmac-padding).
@@ -1239,6 +1240,133 @@ func collisionProbe(t *tr.Trace, r *tr.Rand) {
 	}
 }
 
+// ------------------------------------------------------------- long stream
+
+func randASCII(r *tr.Rand, n int) string {
+	const alphabet = "abcdefghijklmnopqrstuvwxyzABCDEFGHIJKLMNOPQRSTUVWXYZ0123456789 _.,:;!?+*#@"
+	b := make([]byte, n)
+	for i := range b {
+		b[i] = alphabet[r.Intn(len(alphabet))]
+	}
+	return string(b)
+}
+
+// longCase: the round trip for a password of exactly n bytes.  The tool may
+// refuse a password (it cannot read an empty one without a terminal; bcrypt
+// refuses more than 72 bytes); if it prints a hash, the password verifies
+// and no DIFFERENT password does -- in particular none that shares only a
+// prefix with it.  Collisions of passwords that are the same key for the
+// algorithm (F22 for at most 72 bytes, F23) keep their own tokens.
+func longCase(t *tr.Trace, r *tr.Rand, alg string, n int) {
+	pw := randASCII(r, n)
+	cost, iter, klen := 4, r.Range(1, 50), 32
+	args := []string{"-password=" + pw, "-type", alg}
+	if alg == "bcrypt" {
+		args = append(args, fmt.Sprintf("-cost=%d", cost))
+	} else {
+		args = append(args, fmt.Sprintf("-iterations=%d", iter), fmt.Sprintf("-key=%d", klen))
+	}
+	t.Note(fmt.Sprintf("long=%s/%d", alg, n))
+	// what the library itself says about this password
+	libRefuses := false
+	if alg == "bcrypt" {
+		_, err := bcrypt.GenerateFromPassword([]byte(pw), cost)
+		libRefuses = err != nil
+	}
+	out, err := runTool(args...)
+	if err != nil {
+		switch {
+		case n == 0:
+			t.Note("long=tool-cannot-read-empty-password")
+		case libRefuses:
+			h := newAuthHist(t, r, "long", descRec{usersForm: "map"})
+			h.t.Op("refused", "mkpw", "bcrypt", hx(pw), "-", 0, 0, cost, fmt.Sprintf("g:%s:%d:!", hx(pw), cost))
+			t.Note("long=tool-refused-with-the-library")
+		default:
+			t.Fail("C08", "hash_roundtrip", fmt.Sprintf("galenectl hash-password -type %s failed on a %d-byte password: %v", alg, n, err))
+		}
+		return
+	}
+	var m struct {
+		Type       string  `json:"type"`
+		Hash       string  `json:"hash"`
+		Key        *string `json:"key"`
+		Salt       string  `json:"salt"`
+		Iterations int     `json:"iterations"`
+	}
+	if err := json.Unmarshal([]byte(out), &m); err != nil || m.Key == nil {
+		t.Fail("C08", "hash_roundtrip", fmt.Sprintf("galenectl printed %q", out))
+		return
+	}
+	rec := pwRec{form: "object", Type: m.Type, Hash: m.Hash, Key: m.Key, Salt: m.Salt, Iter: m.Iterations,
+		clear: pw, hasClear: true, rawJSON: out}
+	d := descRec{usersForm: "map", users: []userRec{{name: "tool", pw: rec, perm: permRec{form: "name", name: "op"}}}}
+	h := newAuthHist(t, r, "long", d)
+	recTok := userRec{pw: rec}.token()
+	if alg == "bcrypt" {
+		lib := hx(*m.Key)
+		if libRefuses {
+			lib = "!"
+		}
+		h.t.Op(recTok, "mkpw", "bcrypt", hx(pw), "-", 0, 0, cost, fmt.Sprintf("g:%s:%d:%s", hx(pw), cost, lib))
+	} else {
+		salt, _ := hex.DecodeString(m.Salt)
+		res := pbkdf2.Key([]byte(pw), salt, iter, klen, sha256.New)
+		h.t.Op(recTok, "mkpw", "pbkdf2", hx(pw), tr.Hex(salt), iter, klen, 0,
+			fmt.Sprintf("p:%s:%s:%d:%d:%s", hx(pw), tr.Hex(salt), iter, klen, tr.Hex(res)))
+	}
+	t.Checked("C08.hash_roundtrip")
+	if c := h.login(sp("tool"), pw); c != "ok" {
+		t.Fail("C08", "hash_roundtrip", fmt.Sprintf("galenectl %s hash of a %d-byte password does not verify for it: %s", alg, n, c))
+	}
+	// different passwords, in particular ones that agree on a prefix
+	others := []string{pw + "x", pw + pw}
+	if n > 0 {
+		flip := []byte(pw)
+		flip[n-1] ^= 1
+		others = append(others, string(flip), pw[:n-1], pw[:n/2], pw[:n-1]+"-hunter2")
+	}
+	if n > 72 {
+		others = append(others, pw[:72], pw[:72]+"x", pw[:72]+randASCII(r, n-72), pw[:73])
+	}
+	if n > 64 {
+		others = append(others, pw[:64], pw[:64]+randASCII(r, n-64))
+	}
+	for _, other := range others {
+		if other == pw {
+			continue
+		}
+		c := h.login(sp("tool"), other)
+		known := ""
+		if alg == "bcrypt" && n <= 72 && bcryptKey(other) == bcryptKey(pw) {
+			known = "bcrypt-truncation"
+		}
+		if alg == "pbkdf2" && hmacKey(other) == hmacKey(pw) {
+			known = "pbkdf2-hmac-padding"
+		}
+		if known != "" {
+			t.Checked("C08.hash_no_other")
+			if c == "ok" {
+				t.Fail("C08", "hash_no_other", fmt.Sprintf("%s: hash %s of %q also verifies for %q", known, out, pw, other))
+			}
+			continue
+		}
+		t.Checked("C08.hash_roundtrip_long")
+		if c == "ok" {
+			t.Fail("C08", "hash_roundtrip_long", fmt.Sprintf("galenectl hashed a %d-byte password with %s (%s); the hash also verifies for the DIFFERENT %d-byte password %q (configured: %q)",
+				n, alg, out, len(other), other, pw))
+		}
+	}
+}
+
+func longStream(t *tr.Trace, r *tr.Rand) {
+	for _, alg := range []string{"pbkdf2", "bcrypt"} {
+		for _, n := range []int{0, 1, 71, 72, 73, 80, 100, 200} {
+			longCase(t, r, alg, n)
+		}
+	}
+}
+
 // ---------------------------------------------------------- isolation stream
 
 // isoHist: several clients of one group on the real code: permissions come
@@ -1494,6 +1622,7 @@ func runAuth(t *tr.Trace, r *tr.Rand, n int) {
 	corpus(t, r)
 	isoCorpus(t)
 	collisionProbe(t, r)
+	longStream(t, r)
 	for i := 0; i < n; i++ {
 		if i%10 == 9 {
 			toolCase(t, r, r.Pick(5, 4, 1))
